@@ -33,8 +33,8 @@ check("C12",
       "discharged by the solver for all real end points. Holds for every copula/marginal model satisfying the interface, which no finite set of test "
       "models can show.",
       "Trusted: z3; abstract copula/measure axioms (grounded, margins, additive cumulative functions). Bounds: d in {2,3}, interval kinds listed in "
-      "evidence. Outside: equality with the integral of a joint density, inverse_tail_integral (root search in C), rectangles with an end point at 0 or "
-      "containing the origin.",
+      "evidence, including end points exactly at 0 and splits at zero (finite-activity margins there). Outside: equality with the integral of a joint "
+      "density, inverse_tail_integral (root search in C), rectangles containing the origin.",
       TECH, "DESIGN.md section 3 C12")
 
 check("C11",
@@ -54,7 +54,8 @@ check("C01",
       "oracle (straddling coordinates removed by margins, signed F-volumes). Holds for every model satisfying the measure interface.",
       "Trusted: z3; abstract measure/copula axioms; intensity > 0 assumed (the library divides by it); adapted-tree obligations with the intensity "
       "pinned to 1 and 3/2. Bounds: grid points per half-axis <= 2 (quick) / 3 (thorough), <= 2 refinements, copula 3x3 (quick), 5x5 and 3x3x3 "
-      "(thorough). Outside: probability-step grids (middle() is a root search), n-d adapted tree, float rounding.",
+      "(thorough); grid object re-used by a chain before each refinement; factory samplers through their batch sample() call. Outside: chains on "
+      "probability-step grids (their refinement is C13), n-d adapted tree, float rounding.",
       TECH, "DESIGN.md section 3 C01")
 
 check("C04",
@@ -75,8 +76,9 @@ check("C03",
       "components; transfer probabilities are ratios of masses, proved by cross-multiplied polynomial identities.",
       "Trusted: z3; abstract measure/copula axioms; the scripted uniform (comparisons record the threshold and return the scheduled outcome; leaf "
       "measure = difference of consecutive thresholds); n-d global coarse-rate identity follows from the local sub-cell identities by tiling (C01) and "
-      "additivity (C12). Known finding: mixed-parity increments in the copula coupling (see known_findings.json). Outside: 3-d coupling, CouplingSDE "
-      "Euler part (C16).",
+      "additivity (C12). Drift/diffusion bookkeeping is observed on the simulated values over 1-2 successive levels; the per-date assembly of the coupled "
+      "jump values runs on list- and array-valued sampler outputs. Known finding: mixed-parity increments in the copula coupling (see "
+      "known_findings.json). Outside: 3-d coupling, CouplingSDE Euler part (C16).",
       TECH, "DESIGN.md section 3 C03")
 
 check("C05",
@@ -86,7 +88,8 @@ check("C05",
       "ml, vl, mean_level_l, var_level_l, cl equal their definitions on those samples, the coarse payoff is 0 at level 0; uninitialised array cells are "
       "fresh symbols, so any placeholder reaching a result breaks an identity.",
       "Trusted: z3; the scripted process/product/criteria (public duck-typed interfaces); scipy.stats.moment replaced by its definition. Bounds: "
-      "initial_level <= 1 (quick) / 2 (thorough), N0 <= 2/3, level_max <= initial+1/+2, answers in [0,2]/[0,3], <= 4 passes. Outside: control variates "
+      "initial_level <= 1 (quick) / 2 (thorough), N0 <= 2/3, level_max <= initial+1/+2, answers in [0,2]/[0,3] with 2-5 passes per configuration; one level "
+      "of 100/200 samples with answers up to +3 (1% rule); fixed-level variant creating up to 4 levels at once. Outside: control variates "
       "and payoff dimension > 1 in the multilevel engine, worker pools, regression of convergence rates. Known finding: fixed-level variant with "
       "maximum_level < initial_level raises IndexError.",
       TECH, "DESIGN.md section 3 C05")
@@ -108,7 +111,9 @@ check("C07",
       "mean == mean(Y - b*(X - p_X)) with b* = S_XY/S_XX on biased covariances, equals the raw mean when mean(X) = p_X, and Var(adjusted) = Var(Y) - "
       "S_XY^2/S_XX <= Var(Y) (cross-multiplied polynomial identities).",
       "Trusted: z3; scripted process (public Process interface); np.cov/np.std replaced by their definitions; sqrt axioms. Bounds: N <= 3/4, payoff "
-      "dimension <= 2, one control. Outside: >= 2 controls, vector payoffs with controls, worker pools.",
+      "dimension <= 2; one control (arbitrary notional, strike, price) and two controls with plain-float prices (compositional: the covariance entries "
+      "the library computes are proved equal to the sample covariances, the adjustment is then proved over an arbitrary covariance matrix); the same "
+      "Product priced twice. Outside: >= 3 controls, vector payoffs with controls, worker pools.",
       TECH, "DESIGN.md section 3 C07")
 
 check("C17",
@@ -124,7 +129,7 @@ check("C16",
       "Bounded model checking of the real Euler recursions (MarkovChainSDE.simulate_one_path, CouplingSDE.simulate_one_path_with_coupling) on a scripted "
       "symbolic driver path (times, cumulative jumps and Brownian values, drifts) with constant, diag(x) and affine coefficient functions: every returned "
       "state equals the Euler recursion step by step, closed forms for constant and diagonal coefficients, both coupled components with their own driver "
-      "increments and drifts; real df of the rate models on symbolic curves: df(0)=1, positive, non-increasing, value at each tenor = product of the period "
+      "increments and drifts, the real CouplingSDE.next_level over 2-3 levels against a stand-in driver coupling whose chain drift differs per level; real df of the rate models on symbolic curves: df(0)=1, positive, non-increasing, value at each tenor = product of the period "
       "accruals (continuity), df of the exponential and SDE base models.",
       "Trusted: z3; simulators built with __new__ around a scripted driver path; exp axioms. Bounds: <= 2/3 steps, dimensions <= 2, <= 2/3 rates. Outside: "
       "Libor drift term (dblquad), sigma(t) schedules of the Libor/forward coefficient functions, epsilon = h^BG hand-over.",
@@ -136,7 +141,8 @@ check("C13",
       "states sit at 2^k times their index, new states are the grid's own cell boundaries, h halves, the origin index doubles, truncations unchanged, "
       "shared axes are refined once each.",
       "Trusted: z3; compute_truncation (Brent) and np.geomspace are contract stubs (any l < -h/2 < h/2 < r; any strictly monotone sequence). Bounds: "
-      "point counts <= 5/9 per axis, dimension <= 3, <= 3 refinements. Outside: probability-step axes, promised tail probabilities. Known findings: "
+      "point counts <= 5/9 per axis, dimension <= 3, <= 3 refinements; refinement of the probability-step grid with its root search replaced by the "
+      "root contract over an abstract measure. Outside: construction of the probability-step axes, promised tail probabilities. Known findings: "
       "uniform grid with a truncation closer than 2h; credit grid with threshold inside the first step / mirrored threshold beyond r.",
       TECH, "DESIGN.md section 3 C13")
 
@@ -195,7 +201,7 @@ check("C15",
 check("C08",
       "Bounded model checking of the real standard and multilevel engines, Configuration.initialisation_seed and the real direct simulator against an "
       "RNG-stream model (a draw is the uninterpreted value rng(seed, position); seeding sets (seed, 0)), a clock/pid model (solver-chosen readings) and a "
-      "process-pool model (fork = deep copy of the reachable objects and generator state, solver-chosen contiguous chunking): two seeded single-process "
+      "process-pool model (fork = deep copy of the reachable objects and generator state, solver-chosen contiguous chunking; os.urandom = solver-chosen pairwise distinct values): two seeded single-process "
       "runs produce syntactically identical prices (seed 7 and seed 0, both engines); for every pair of distinct samples the solver looks for clock, pid and "
       "chunk values making their payoff terms contain the same rng(seed, position) - unsat for single-process runs of both engines.",
       "Trusted: z3; the three environment models (listed in evidence.assumptions). Bounds: <= 2/3 paths, 1-2 workers, levels 0..1, one extra pass. Outside: "
